@@ -18,6 +18,7 @@
 #include <aws/common/lifo_cache.h>
 #include <aws/common/linked_hash_table.h>
 #include <aws/common/lru_cache.h>
+#include <aws/common/private/hash_table_impl.h>
 #include <stdlib.h>
 #include <string.h>
 
@@ -198,6 +199,8 @@ static void s_print_evs(bool seq) {
     s_nevs = 0;
 }
 
+static void s_print_impl(void);
+
 static void s_print_state(void) {
     struct aws_linked_hash_table *t = s_table();
     size_t count = s_kind == K_LHT ? aws_linked_hash_table_get_element_count(t) : aws_cache_get_element_count(s_cache);
@@ -240,6 +243,68 @@ static void s_print_state(void) {
             s_mon_dead_result);
         s_mon_key_uad = s_mon_key_dd = s_mon_val_dd = s_mon_dead_in_table = s_mon_dead_result = 0;
     }
+    s_print_impl();
+}
+
+/* W: the real hash table's slots (key pointer -> node, shown by the node's value) and both walks of
+ * the real list; compared with the implementation-level model (Model/LhtImpl.lean) */
+static void s_print_impl(void) {
+    struct aws_linked_hash_table *t = s_table();
+    struct hash_table_state *st = t->table.p_impl;
+    printf("W impl size=%zu cnt=%zu slots", st->size, st->entry_count);
+    size_t n = 0;
+    for (size_t i = 0; i < st->size; ++i) {
+        if (!st->slots[i].hash_code) {
+            continue;
+        }
+        ++n;
+        const struct hkey *k = st->slots[i].element.key;
+        const struct aws_linked_hash_table_node *node = st->slots[i].element.value;
+        if (!s_key_live(k)) {
+            printf(" %zu:?", i);
+        } else if (!node) {
+            printf(" %zu:%u.%u=NULL", i, k->ident, k->ptr);
+        } else if (!s_val_live(node->value)) {
+            printf(" %zu:%u.%u=?", i, k->ident, k->ptr);
+        } else {
+            printf(" %zu:%u.%u=%lu", i, k->ident, k->ptr, ((const struct hval *)node->value)->val);
+        }
+    }
+    if (!n) {
+        printf(" -");
+    }
+    const struct aws_linked_list *list = aws_linked_hash_table_get_iteration_list(t);
+    printf(" list");
+    n = 0;
+    for (const struct aws_linked_list_node *it = aws_linked_list_begin(list); it != aws_linked_list_end(list);
+         it = aws_linked_list_next(it)) {
+        const struct aws_linked_hash_table_node *node = AWS_CONTAINER_OF(it, struct aws_linked_hash_table_node, node);
+        if (s_val_live(node->value)) {
+            printf(" %lu", ((const struct hval *)node->value)->val);
+        } else {
+            printf(" ?");
+        }
+        HC_CHECK(++n < 100000);
+    }
+    if (!n) {
+        printf(" -");
+    }
+    printf(" rlist");
+    n = 0;
+    for (const struct aws_linked_list_node *it = aws_linked_list_rbegin(list); it != aws_linked_list_rend(list);
+         it = aws_linked_list_prev(it)) {
+        const struct aws_linked_hash_table_node *node = AWS_CONTAINER_OF(it, struct aws_linked_hash_table_node, node);
+        if (s_val_live(node->value)) {
+            printf(" %lu", ((const struct hval *)node->value)->val);
+        } else {
+            printf(" ?");
+        }
+        HC_CHECK(++n < 100000);
+    }
+    if (!n) {
+        printf(" -");
+    }
+    printf("\n");
 }
 
 static struct hkey *s_key_obj(unsigned ident, unsigned ptr) {
